@@ -283,6 +283,7 @@ fn main() {
         "ser" => jobs_cmd(&args[2..], ser::ser_job),
         "html" => jobs_cmd(&args[2..], html::html_job),
         "build" => jobs_cmd(&args[2..], build::build_job),
+        "churn" => churn(&args[2..]),
         "intern-drive" => {
             let a = &args[2..];
             intern::intern_drive(
@@ -297,5 +298,52 @@ fn main() {
             eprintln!("unknown sub-command {other}");
             std::process::exit(2);
         }
+    }
+}
+
+
+/// Slot churn (C04, "is_removed stays true for ever"): allocate and remove a node `cycles` times, so that one arena slot is
+/// reused over and over; at checkpoints allocate a live node and count the removed handles that look live again.
+/// One JSON line per run: {"op":"churn","cycles":..,"resurrected":..,"first":.. (cycle of the first such handle or -1),
+/// "aliases_live": does such a handle read the live node's text}.
+fn churn(args: &[String]) {
+    let cycles: usize = arg(args, "--cycles", "33000").parse().unwrap();
+    let out = arg(args, "--out", "/dev/stdout");
+    let mut f = BufWriter::new(std::fs::File::create(&out).expect("create out"));
+    for kind in ["text", "element", "attribute"] {
+        let mut x = xot::Xot::new();
+        let name = x.add_name("a");
+        let mut handles = vec![];
+        let r = std::panic::catch_unwind(std::panic::AssertUnwindSafe(|| {
+            for _ in 0..cycles {
+                let n = match kind {
+                    "text" => x.new_text("t"),
+                    "element" => x.new_element(name),
+                    _ => x.new_attribute_node(name, "v".to_string()),
+                };
+                x.remove(n).unwrap();
+                handles.push(n);
+            }
+            let live = x.new_text("live");
+            let mut resurrected = 0usize;
+            let mut first: i64 = -1;
+            let mut aliases = false;
+            for (i, h) in handles.iter().enumerate() {
+                if !x.is_removed(*h) {
+                    resurrected += 1;
+                    if first < 0 {
+                        first = i as i64;
+                        aliases = x.text_str(*h) == Some("live");
+                    }
+                }
+            }
+            (resurrected, first, aliases, x.is_removed(live))
+        }));
+        let ev = match r {
+            Ok((res, first, aliases, live_removed)) => json!({"op": "churn", "kind": kind, "cycles": cycles, "resurrected": res, "first": first,
+                                                              "aliases_live": aliases, "live_reads_removed": live_removed, "panic": false}),
+            Err(_) => json!({"op": "churn", "kind": kind, "cycles": cycles, "resurrected": 0, "first": -1, "aliases_live": false, "live_reads_removed": false, "panic": true}),
+        };
+        writeln!(f, "{}", ev).unwrap();
     }
 }
